@@ -28,6 +28,7 @@ func init() {
 		ruleF14(c, "C05.F14")
 		ruleK5(c, "C05.F15")
 		ruleF16(c, "C05.F16")
+		ruleF17(c, "C05.F17")
 		ruleW1(c, "C05.F7")
 		ruleR3(c, "C05.R3")
 		ruleR6(c, "C05.R6")
@@ -674,4 +675,86 @@ func ruleF16(c *Ctx, id string) {
 		}
 	}
 	R.Check(n > 0, id, "inventory|stores to Size/ShrinkSize", "?", "the stores are enumerated", fmt.Sprintf("%d stores", n), "none found")
+}
+
+// ruleF17: everything that frees blocks asks Inode.IsShrinking whether blocks
+// beyond the size may still be held (Shrink, Resize, DoShrink, getShrink,
+// getAlloc).  "No" must mean ShrinkSize <= RoundUp(Size): any other way to
+// answer "no" (a shortcut that inspects some of the block pointers) leaves
+// blocks allocated and unreachable for ever.
+func ruleF17(c *Ctx, id string) {
+	V, P, R := c.V, c.P, c.R
+	R.Rule(id, "IsShrinking says no only when nothing can be held: every false answer of Inode.IsShrinking is the outcome of comparing ShrinkSize with the (rounded-up) size", 1)
+	f := V.IsShrinking
+	if f == nil {
+		return
+	}
+	isShrinkLoad := func(v ssa.Value) bool {
+		n, fl, _, _ := loadedField(stripConv(v))
+		return n == V.Inode && fl == "ShrinkSize"
+	}
+	fromSize := func(v ssa.Value) bool {
+		for src := range bwdAll(v) {
+			if n, fl, _, _ := loadedField(src); n == V.Inode && fl == "Size" {
+				return true
+			}
+		}
+		return false
+	}
+	// the comparison "ShrinkSize > cursz" in any spelling; returns (is it, polarity: true if the condition being
+	// true means 'shrinking')
+	cmpOf := func(cd Cond) (bool, bool) {
+		if cd.X == nil || cd.Y == nil {
+			return false, false
+		}
+		op, x, y := cd.Op, cd.X, cd.Y
+		if isShrinkLoad(y) {
+			op, x, y = flipOp(op), y, x
+		}
+		if !isShrinkLoad(x) || !fromSize(y) {
+			return false, false
+		}
+		switch op {
+		case token.GTR:
+			return true, true
+		case token.LEQ:
+			return true, false
+		}
+		return false, false
+	}
+	n := 0
+	for _, rs := range returnSources(f, 0) {
+		n++
+		key := fmt.Sprintf("inode.IsShrinking|answer#%d", n)
+		v := stripConv(rs.Val)
+		if bo, ok := v.(*ssa.BinOp); ok {
+			is, pol := cmpOf(Cond{Op: bo.Op, X: bo.X, Y: bo.Y})
+			R.Check(is && pol, id, key, P.Pos(rs.Ret.Pos()), "the answer is the comparison ShrinkSize > RoundUp(Size) itself", "the comparison", "the answer is another comparison")
+			continue
+		}
+		bv, isb := constBool(v)
+		if !isb {
+			R.Undecided(id, key, P.Pos(rs.Ret.Pos()), "the answer is a constant or the comparison of ShrinkSize with the size", "unrecognised form: "+v.String())
+			continue
+		}
+		if bv {
+			R.Pass(id, key, P.Pos(rs.Ret.Pos()), "a 'yes' can only cause more freeing work", "constant true")
+			continue
+		}
+		// a constant false: only on the side where ShrinkSize <= size
+		g := guardedBy(f, rs.From, func(cd Cond) (bool, bool) {
+			is, pol := cmpOf(cd)
+			return is, !pol
+		})
+		if !g && rs.To != nil {
+			g = condEdge(f, func(cd Cond) (bool, bool) {
+				is, pol := cmpOf(cd)
+				return is, !pol
+			})(rs.From, rs.To)
+		}
+		R.Check(g, id, key, P.Pos(rs.Ret.Pos()), "a constant 'no' is returned only on the side of the comparison where ShrinkSize <= RoundUp(Size)", "guarded", "IsShrinking can say 'no' while ShrinkSize is beyond the size: REMOVE, truncation and the reuse of the inode then free nothing - the blocks stay allocated and unreachable")
+	}
+	if n == 0 {
+		R.Fail(id, "inode.IsShrinking|answers", P.Pos(f.Pos()), "IsShrinking returns a boolean", "no return found")
+	}
 }
